@@ -334,7 +334,11 @@ CHECKS["C11"]["text"] = CHECKS["C11"]["text"].replace(
     "the tree); wrapped values,",
     "the tree); what the writer emits for a container is read back record by record (the JSON half of 'writing d and loading "
     "the result gives d again', container level), and the PROV-XML element written for a record is loaded by the model of the "
-    "library's reader as that record (C11_written_xml_record_reloads, record level); wrapped values,")
+    "library's reader as that record (C11_written_xml_record_reloads, record level); for every tree the reader accepts, every "
+    "record of the document it builds has an attribute dictionary keyed by pairwise different URIs whose value lists are sets "
+    "(C11_json_decoded_shape: an invariant of add_attributes whichever way it ends, threaded through the whole reader — two of "
+    "the premises of the round-trip theorems become theorems for loaded documents) and holds only stored-form values, each of "
+    "which is written and re-loaded as itself once its names are bound (C11_json_decoded_values_reload); wrapped values,")
 CHECKS["C02"]["text"] = CHECKS["C02"]["text"].replace(
     "Element-tree assembly (nsmap, child order, subtype element names, bundles) is not modelled (partial).",
     "Record level, element names: for every record class and attribute list the writer takes out exactly one prov:type pair "
